@@ -42,7 +42,9 @@ type ChanCfg struct {
 type Op struct {
 	Op    string  `json:"op"`
 	D     [][]int `json:"d,omitempty"`
-	Jit   int64   `json:"jit,omitempty"` // B: deviation (ns) of the block time stamp from the affine time
+	Jit   int64   `json:"jit,omitempty"`  // B: deviation (ns) of the block time stamp from the affine time
+	Gap   int64   `json:"gap,omitempty"`  // B: frames the source lost before this block (its first frame is that much later)
+	Drop  int     `json:"drop,omitempty"` // B: droppedFrames reported with the block (Lancero: = gap; Abaco: filled in, no gap)
 	Chans []int   `json:"chans,omitempty"`
 	TS    *TS     `json:"ts,omitempty"`
 	Nsamp int     `json:"nsamp,omitempty"`
@@ -65,6 +67,8 @@ type Case struct {
 	Note  string    `json:"note,omitempty"`
 	// Stray: the saved configuration also names channels this source does not have (must be ignored by PrepareRun)
 	Stray bool `json:"stray,omitempty"`
+	// Lag: the published records of a block are read only after this many further blocks were processed
+	Lag int `json:"lag,omitempty"`
 }
 
 // DefaultTS is what PrepareRun installs for a channel without saved settings.
@@ -136,6 +140,18 @@ func toU16(xs []int) []uint16 {
 	return out
 }
 
+type pendingBlock struct {
+	held     *dastard.VerifHeldC01
+	first    int64
+	notFirst bool
+	implIdx  int
+	born     int
+	nprim    []int
+	termIdx  []int
+	head     []string
+	tail     []string
+}
+
 // Flags computed while running, for tags and the non-triviality rules.
 type Facts struct {
 	RecordAcrossBlocks bool // a record whose excerpt uses samples of >= 2 blocks (C01 rule)
@@ -183,7 +199,8 @@ func Run(c Case) lib.Result {
 		O    []Op
 		S    bool
 		FR   float64
-	}{c.Npre, c.Nsamp, c.Rate, c.F0, c.T0, c.Chans, c.Ops, c.Stray, c.FRate})}
+		L    int
+	}{c.Npre, c.Nsamp, c.Rate, c.F0, c.T0, c.Chans, c.Ops, c.Stray, c.FRate, c.Lag})}
 	nchan := len(c.Chans)
 	if nchan == 0 || (c.FRate <= 0 && (c.Rate <= 0 || 1000000000%c.Rate != 0)) || (c.FRate > 0 && c.FRate < 100) {
 		panic("harness: bad case")
@@ -237,6 +254,36 @@ func Run(c Case) lib.Result {
 	npre, nsamp := c.Npre, c.Nsamp
 	next := c.F0
 	nblocks := 0
+	if c.Lag > 0 {
+		tags["records-read-blocks-later"] = true
+	}
+	// records are read (copied out of the objects PublishData queued) only after c.Lag further blocks were
+	// processed, like a publishing goroutine that lags behind
+	var pending []*pendingBlock
+	flush := func(upto int) {
+		for len(pending) > 0 && pending[0].born <= upto {
+			pb := pending[0]
+			pending = pending[1:]
+			got := pb.held.Read()
+			for i := 0; i < nchan; i++ {
+				var recs []string
+				var frames []int64
+				for _, rec := range got[i] {
+					recs = append(recs, pipe.RecTerm(rec.Frame, rec.TimeNs, rec.Pre, rec.Data, rec.Signed))
+					frames = append(frames, rec.Frame)
+					facts.Records++
+					if rec.Frame-int64(rec.Pre) < pb.first && pb.notFirst {
+						facts.RecordAcrossBlocks = true
+					}
+				}
+				if len(frames) != pb.nprim[i] {
+					panic("harness: records and primary trigger list differ in length (secondaries are not part of these cases)")
+				}
+				terms[i][pb.termIdx[i]] = pb.head[i] + " " + lib.List(recs) + " " + pb.tail[i]
+				impl[pb.implIdx][i].Frames = frames
+			}
+		}
+	}
 	for _, o := range c.Ops {
 		var ob []ChanObs
 		switch o.Op {
@@ -258,36 +305,34 @@ func Run(c Case) lib.Result {
 			for i := range chans {
 				chans[i] = toU16(o.D[i])
 			}
+			if o.Gap > 0 && nblocks > 0 { // the source lost frames before this block
+				next += o.Gap
+				tags["frame-gap-before-block"] = true
+			}
+			if o.Drop > 0 {
+				tags["block-reports-dropped-frames"] = true
+			}
 			tns := c.T0 + (next-c.F0)*period + o.Jit
-			r := b.Block(chans, signed, next, tns, period, nil, 0)
-			if r.Err != "" {
-				panic("harness: ProcessSegments returned " + r.Err)
+			errText, prim, held := b.BlockHoldC01(chans, signed, next, tns, period, o.Drop)
+			if errText != "" {
+				panic("harness: ProcessSegments returned " + errText)
 			}
 			if n < nsamp {
 				tags["block-shorter-than-record"] = true
 			}
+			pb := &pendingBlock{held: held, first: next, notFirst: nblocks > 0, implIdx: len(impl), born: nblocks}
 			for i := 0; i < nchan; i++ {
 				ground[i] = append(ground[i], o.D[i]...)
-				var recs []string
-				var frames []int64
-				for _, rec := range r.Records[i] {
-					recs = append(recs, pipe.RecTerm(rec.Frame, rec.TimeNs, rec.Pre, rec.Data, rec.Signed))
-					frames = append(frames, rec.Frame)
-					facts.Records++
-					if rec.Frame-int64(rec.Pre) < next && nblocks > 0 {
-						facts.RecordAcrossBlocks = true
-					}
-				}
-				if len(frames) != len(r.Primaries[i]) {
-					panic("harness: records and primary trigger list differ in length (secondaries are not part of these cases)")
-				}
-				nret, first, _, _ := b.VerifDsp(i).VerifStreamInfo()
-				terms[i] = append(terms[i], fmt.Sprintf("B %s %s %s %d %s %s %d %s", lib.ZListInt(o.D[i]), lib.Z(next), lib.Z(tns), period,
-					lib.B(signed[i]), lib.List(recs), nret, lib.Z(first)))
-				ob = append(ob, ChanObs{Chan: i, Frames: frames, Retained: nret, First: first})
-				// C02 non-triviality: an enabled criterion holds within nsamp of this block's first frame
+				nret, firstRet, _, _ := b.VerifDsp(i).VerifStreamInfo()
+				pb.nprim = append(pb.nprim, len(prim[i]))
+				pb.termIdx = append(pb.termIdx, len(terms[i]))
+				pb.head = append(pb.head, fmt.Sprintf("B %s %s %s %d %s", lib.ZListInt(o.D[i]), lib.Z(next), lib.Z(tns), period, lib.B(signed[i])))
+				pb.tail = append(pb.tail, fmt.Sprintf("%d %s", nret, lib.Z(firstRet)))
+				terms[i] = append(terms[i], "")
+				ob = append(ob, ChanObs{Chan: i, Retained: nret, First: firstRet})
+				// C02 non-triviality: an enabled criterion holds within nsamp of this block's first sample
 				if nblocks > 0 {
-					kb := int(next - c.F0)
+					kb := len(ground[i]) - n
 					for k := kb - nsamp; k <= kb+nsamp && !facts.CritNearBoundary; k++ {
 						if critAt(cur[i], signed[i], ground[i], k) {
 							facts.CritNearBoundary = true
@@ -295,6 +340,7 @@ func Run(c Case) lib.Result {
 					}
 				}
 			}
+			pending = append(pending, pb)
 			next += int64(n)
 			nblocks++
 		case "CT":
@@ -343,7 +389,9 @@ func Run(c Case) lib.Result {
 			continue
 		}
 		impl = append(impl, ob)
+		flush(nblocks - 1 - c.Lag)
 	}
+	flush(nblocks)
 	res.Term = caseTerm(c, terms)
 	res.Impl = impl
 	if os.Getenv("C01_CHAN_TERMS") != "" { // set by Crash for its prefix runs
@@ -476,10 +524,18 @@ func Crash(raw json.RawMessage, stderr string) (lib.Result, error) {
 	o := c.Ops[k]
 	period := c.PeriodNs()
 	next := c.F0
+	seen := 0
 	for _, q := range c.Ops[:k] {
 		if q.Op == "B" && len(q.D) == len(c.Chans) && len(q.D[0]) > 0 {
+			if q.Gap > 0 && seen > 0 {
+				next += q.Gap
+			}
 			next += int64(len(q.D[0]))
+			seen++
 		}
+	}
+	if o.Op == "B" && o.Gap > 0 && seen > 0 {
+		next += o.Gap
 	}
 	for i := range c.Chans {
 		if o.Op == "B" && len(o.D) == len(c.Chans) {
